@@ -8,6 +8,7 @@ require (
 	github.com/lindb/lindb v0.0.0
 	github.com/lithammer/go-jump-consistent-hash v1.0.2
 	go.uber.org/zap v1.21.0
+	google.golang.org/grpc v1.59.0
 )
 
 require (
@@ -48,7 +49,6 @@ require (
 	golang.org/x/text v0.14.0 // indirect
 	google.golang.org/genproto/googleapis/api v0.0.0-20231012201019-e917dd12ba7a // indirect
 	google.golang.org/genproto/googleapis/rpc v0.0.0-20231009173412-8bfb1ae86b6c // indirect
-	google.golang.org/grpc v1.59.0 // indirect
 	google.golang.org/protobuf v1.33.0 // indirect
 	gopkg.in/natefinch/lumberjack.v2 v2.2.1 // indirect
 )
